@@ -17,14 +17,20 @@ PROP = {'rule': 'rapid-generated cases. loop (KillAndEvictPods): 1-3 tasks over 
          'excluded. memEndToEnd/cpuEndToEnd: the same pods plus node allocatable (batch/mid resource absent / 0 / small), node usage '
          'around the threshold, BE satisfaction metrics around the limits, feature gates, failure pattern and already-evicted pods, run '
          'through memoryEvict()/cpuEvict(); non-trivial = a target was computed, >=1 Evict call, >=1 pod present that the policy does '
-         'not allow. distinct = FNV-64 fingerprint of the full case description.',
+         'not allow. memRounds/cpuRounds: the same scene (3 in 4 cases with moderate lasting pressure: target = 1..8 units), 2-3 '
+         'consecutive rounds of memoryEvict()/cpuEvict() with the real Evictor behind a fake API server whose eviction subresource '
+         'fails by a generated per-pod pattern; between rounds every earlier victim becomes terminating (deletionTimestamp set, still '
+         'listed, still in usage/requests), stays without timestamp, or is gone (usage drops); non-trivial = a later round with a '
+         'positive target, a terminating earlier victim the task\'s policy allows and a fresh candidate for the same task. '
+         'distinct = FNV-64 fingerprint of the full case description.',
  'assumptions': [PERF_STUB,
                  'a victim list never names the same pod twice and pods have unique namespace/name (lists are built from the informer\'s pod set)',
                  'functions of tasks with the same release target type report the same amount for the same (PodEvictInfo, resource) or '
                  'nothing (real callers derive them from the pod / the info), so merging them by maximum is unambiguous',
                  'release targets are never negative (callers publish positive or, for resources the node does not report, zero amounts)',
                  'pods carry status.qosClass and have no init containers / overhead (request sums are plain sums over containers)',
-                 'lenient readings, see manifest note: already-evicted pods count from the moment the executor reported them; a victim '
+                 'lenient readings, see manifest note: in the single-round end-to-end units already-evicted pods count from the moment '
+                 'the executor reported them (loop and rounds units: every already-evicted pod of the task\'s own list counts); a victim '
                  '"frees something" if it frees any still-short amount of ANY task of the round; a pod without usage sample is not judged '
                  'to free nothing; the best-effort lists are checked against priority, then usage (the eviction-priority annotation is '
                  'documented for "MemoryEvict, CPUEvict")',
@@ -35,14 +41,16 @@ PROP = {'rule': 'rapid-generated cases. loop (KillAndEvictPods): 1-3 tasks over 
             'tests': [{'run': 'TestVerifC11Loop', 'quick': 4000, 'thorough': 80000}]},
            {'name': 'mem',
             'pkg': 'pkg/koordlet/qosmanager/plugins/memoryevict',
-            'files': ['C11/c11_mem_test.go'],
+            'files': ['C11/c11_mem_test.go', 'C11/c11_mem_rounds_test.go'],
             'tests': [{'run': 'TestVerifC11MemLists', 'quick': 2000, 'thorough': 20000},
-                      {'run': 'TestVerifC11MemEndToEnd', 'quick': 2000, 'thorough': 20000}]},
+                      {'run': 'TestVerifC11MemEndToEnd', 'quick': 2000, 'thorough': 20000},
+                      {'run': 'TestVerifC11MemRounds', 'quick': 1500, 'thorough': 10000}]},
            {'name': 'cpu',
             'pkg': 'pkg/koordlet/qosmanager/plugins/cpuevict',
-            'files': ['C11/c11_cpu_test.go'],
+            'files': ['C11/c11_cpu_test.go', 'C11/c11_cpu_rounds_test.go'],
             'tests': [{'run': 'TestVerifC11CPULists', 'quick': 2000, 'thorough': 20000},
-                      {'run': 'TestVerifC11CPUEndToEnd', 'quick': 2000, 'thorough': 20000}]}],
+                      {'run': 'TestVerifC11CPUEndToEnd', 'quick': 2000, 'thorough': 20000},
+                      {'run': 'TestVerifC11CPURounds', 'quick': 1500, 'thorough': 10000}]}],
  'manifest': {'technique': 'property-based testing (rapid): generated task sets / victim lists / failure patterns against a recording '
                            'eviction executor with an independent running-total oracle; generated pod sets against restated eligibility '
                            'and ordering rules; end-to-end runs of memoryEvict()/cpuEvict() with fake informer and metric cache',
@@ -57,9 +65,14 @@ PROP = {'rule': 'rapid-generated cases. loop (KillAndEvictPods): 1-3 tasks over 
                       'duplicates, and every pair ordered by eviction priority, priority, then sub-priority label / usage or request. '
                       '(c) memoryEvict()/cpuEvict() end to end with the real task builders: eligibility of every victim per feature, no pod '
                       'twice, nothing after the computed target is covered, nothing evicted that frees none of what is short. '
+                      '(d) multi-round histories through memoryEvict()/cpuEvict() with the real Evictor: a pod evicted in an earlier round '
+                      'is never evicted again, and no pod is evicted in a round whose target is already covered by this round\'s victims '
+                      'plus the earlier victims that are still present (terminating) and allowed for the task - first those ahead of the '
+                      'new victim in the restated published order, then all of them. '
                       'Exploration, not proof: absence of violations over the sampled cases.',
-              'note': 'Where the statement leaves room the lenient reading is asserted and the strict one only counted as a class: pending '
-                      '(already-evicted) pods count once the executor has reported them, not before; a victim that frees nothing for its own '
+              'note': 'Where the statement leaves room the lenient reading is asserted and the strict one only counted as a class: '
+                      'pending (already-evicted) pods count only if they belong to the calling task\'s own list / are allowed by its '
+                      'policy; a victim that frees nothing for its own '
                       'task but something for another task of the same round is accepted; pods without usage sample are not judged; the '
                       'BE lists are not required to honour the eviction-priority annotation. Under-eviction (stopping early, e.g. because '
                       'memoryevict multiplies pod usage by 1000 in the by-priority lists) is outside the statement and not asserted. '
